@@ -17,17 +17,17 @@ use crate::report::{cov, machinery_fail, Report, Tier};
 use crate::sut::{self, Outcome};
 
 #[derive(Clone)]
-struct Case {
-    ic: ICase,
+pub struct Case {
+    pub ic: ICase,
     /// source text of the instruction line (may use a .def alias instead of a register)
-    text: String,
+    pub text: String,
     /// what kind of departure from the legal base tuple this is (part of the violation key)
-    cat: &'static str,
-    pos: usize,
-    uses_alias: bool,
+    pub cat: &'static str,
+    pub pos: usize,
+    pub uses_alias: bool,
 }
 
-const ALIAS: &str = "alias_q";
+pub const ALIAS: &str = "alias_q";
 
 fn extremes() -> Vec<i64> {
     let mut v = vec![];
@@ -84,7 +84,7 @@ fn window(lo: i64, hi: i64, w: i64) -> BTreeSet<i64> {
     s
 }
 
-fn gen_cases(tier: Tier, core: Core) -> Vec<Case> {
+pub fn gen_cases(tier: Tier, core: Core) -> Vec<Case> {
     let small = if core == Core::Full {
         let mut v = icase::small_cases_full();
         v.push(icase::big_case(0x2_1234));
